@@ -145,3 +145,257 @@ Qed.
 (* graphs the theorems are about: labels in range *)
 Definition wf (g : graph) : Prop :=
   (forall t d, In d (g_deps g t) -> d < g_n g) /\ (forall l, In l (g_req g) -> l < g_n g) /\ 1 <= g_threads g.
+(* projections through the helpers of apply (rewrite database `proj`) *)
+Lemma ts_task_done : forall s, ts (task_done s) = ts s.
+Proof. intros s. unfold task_done. cbn. destruct (numPending s - 1 <=? 0)%Z; reflexivity. Qed.
+Lemma ts_log_fail : forall g s p, ts (log_fail g s p) = ts s.
+Proof. intros g s p. unfold log_fail. cbn. destruct (negb (g_keep_going g) || p); reflexivity. Qed.
+Lemma ts_async_error : forall g s l, ts (async_error g s l) = ts s.
+Proof. intros g s l. unfold async_error. cbn. rewrite ts_log_fail. reflexivity. Qed.
+#[export] Hint Rewrite ts_task_done ts_log_fail ts_async_error : proj.
+Lemma fin_task_done : forall s, fin (task_done s) = fin s.
+Proof. intros s. unfold task_done. cbn. destruct (numPending s - 1 <=? 0)%Z; reflexivity. Qed.
+Lemma fin_log_fail : forall g s p, fin (log_fail g s p) = fin s.
+Proof. intros g s p. unfold log_fail. cbn. destruct (negb (g_keep_going g) || p); reflexivity. Qed.
+Lemma fin_async_error : forall g s l, fin (async_error g s l) = fin s.
+Proof. intros g s l. unfold async_error. cbn. rewrite fin_log_fail. reflexivity. Qed.
+#[export] Hint Rewrite fin_task_done fin_log_fail fin_async_error : proj.
+Lemma ex_task_done : forall s, ex (task_done s) = ex s.
+Proof. intros s. unfold task_done. cbn. destruct (numPending s - 1 <=? 0)%Z; reflexivity. Qed.
+Lemma ex_log_fail : forall g s p, ex (log_fail g s p) = ex s.
+Proof. intros g s p. unfold log_fail. cbn. destruct (negb (g_keep_going g) || p); reflexivity. Qed.
+Lemma ex_async_error : forall g s l, ex (async_error g s l) = ex s.
+Proof. intros g s l. unfold async_error. cbn. rewrite ex_log_fail. reflexivity. Qed.
+#[export] Hint Rewrite ex_task_done ex_log_fail ex_async_error : proj.
+Lemma pk_task_done : forall s, pk (task_done s) = pk s.
+Proof. intros s. unfold task_done. cbn. destruct (numPending s - 1 <=? 0)%Z; reflexivity. Qed.
+Lemma pk_log_fail : forall g s p, pk (log_fail g s p) = pk s.
+Proof. intros g s p. unfold log_fail. cbn. destruct (negb (g_keep_going g) || p); reflexivity. Qed.
+Lemma pk_async_error : forall g s l, pk (async_error g s l) = pk s.
+Proof. intros g s l. unfold async_error. cbn. rewrite pk_log_fail. reflexivity. Qed.
+#[export] Hint Rewrite pk_task_done pk_log_fail pk_async_error : proj.
+Lemma asy_task_done : forall s, asy (task_done s) = asy s.
+Proof. intros s. unfold task_done. cbn. destruct (numPending s - 1 <=? 0)%Z; reflexivity. Qed.
+Lemma asy_log_fail : forall g s p, asy (log_fail g s p) = asy s.
+Proof. intros g s p. unfold log_fail. cbn. destruct (negb (g_keep_going g) || p); reflexivity. Qed.
+Lemma asy_async_error : forall g s l, asy (async_error g s l) = asy s.
+Proof. intros g s l. unfold async_error. cbn. rewrite asy_log_fail. reflexivity. Qed.
+#[export] Hint Rewrite asy_task_done asy_log_fail asy_async_error : proj.
+Lemma initq_task_done : forall s, initq (task_done s) = initq s.
+Proof. intros s. unfold task_done. cbn. destruct (numPending s - 1 <=? 0)%Z; reflexivity. Qed.
+Lemma initq_log_fail : forall g s p, initq (log_fail g s p) = initq s.
+Proof. intros g s p. unfold log_fail. cbn. destruct (negb (g_keep_going g) || p); reflexivity. Qed.
+Lemma initq_async_error : forall g s l, initq (async_error g s l) = initq s.
+Proof. intros g s l. unfold async_error. cbn. rewrite initq_log_fail. reflexivity. Qed.
+#[export] Hint Rewrite initq_task_done initq_log_fail initq_async_error : proj.
+Lemma ptasks_task_done : forall s, ptasks (task_done s) = ptasks s.
+Proof. intros s. unfold task_done. cbn. destruct (numPending s - 1 <=? 0)%Z; reflexivity. Qed.
+Lemma ptasks_log_fail : forall g s p, ptasks (log_fail g s p) = ptasks s.
+Proof. intros g s p. unfold log_fail. cbn. destruct (negb (g_keep_going g) || p); reflexivity. Qed.
+Lemma ptasks_async_error : forall g s l, ptasks (async_error g s l) = ptasks s.
+Proof. intros g s l. unfold async_error. cbn. rewrite ptasks_log_fail. reflexivity. Qed.
+#[export] Hint Rewrite ptasks_task_done ptasks_log_fail ptasks_async_error : proj.
+Lemma parsers_task_done : forall s, parsers (task_done s) = parsers s.
+Proof. intros s. unfold task_done. cbn. destruct (numPending s - 1 <=? 0)%Z; reflexivity. Qed.
+Lemma parsers_log_fail : forall g s p, parsers (log_fail g s p) = parsers s.
+Proof. intros g s p. unfold log_fail. cbn. destruct (negb (g_keep_going g) || p); reflexivity. Qed.
+Lemma parsers_async_error : forall g s l, parsers (async_error g s l) = parsers s.
+Proof. intros g s l. unfold async_error. cbn. rewrite parsers_log_fail. reflexivity. Qed.
+#[export] Hint Rewrite parsers_task_done parsers_log_fail parsers_async_error : proj.
+Lemma semi_task_done : forall s, semi (task_done s) = semi s.
+Proof. intros s. unfold task_done. cbn. destruct (numPending s - 1 <=? 0)%Z; reflexivity. Qed.
+Lemma semi_log_fail : forall g s p, semi (log_fail g s p) = semi s.
+Proof. intros g s p. unfold log_fail. cbn. destruct (negb (g_keep_going g) || p); reflexivity. Qed.
+Lemma semi_async_error : forall g s l, semi (async_error g s l) = semi s.
+Proof. intros g s l. unfold async_error. cbn. rewrite semi_log_fail. reflexivity. Qed.
+#[export] Hint Rewrite semi_task_done semi_log_fail semi_async_error : proj.
+Lemma sendq_task_done : forall s, sendq (task_done s) = sendq s.
+Proof. intros s. unfold task_done. cbn. destruct (numPending s - 1 <=? 0)%Z; reflexivity. Qed.
+Lemma sendq_log_fail : forall g s p, sendq (log_fail g s p) = sendq s.
+Proof. intros g s p. unfold log_fail. cbn. destruct (negb (g_keep_going g) || p); reflexivity. Qed.
+Lemma sendq_async_error : forall g s l, sendq (async_error g s l) = sendq s.
+Proof. intros g s l. unfold async_error. cbn. rewrite sendq_log_fail. reflexivity. Qed.
+#[export] Hint Rewrite sendq_task_done sendq_log_fail sendq_async_error : proj.
+Lemma actq_task_done : forall s, actq (task_done s) = actq s.
+Proof. intros s. unfold task_done. cbn. destruct (numPending s - 1 <=? 0)%Z; reflexivity. Qed.
+Lemma actq_log_fail : forall g s p, actq (log_fail g s p) = actq s.
+Proof. intros g s p. unfold log_fail. cbn. destruct (negb (g_keep_going g) || p); reflexivity. Qed.
+Lemma actq_async_error : forall g s l, actq (async_error g s l) = actq s.
+Proof. intros g s l. unfold async_error. cbn. rewrite actq_log_fail. reflexivity. Qed.
+#[export] Hint Rewrite actq_task_done actq_log_fail actq_async_error : proj.
+Lemma taken_task_done : forall s, taken (task_done s) = taken s.
+Proof. intros s. unfold task_done. cbn. destruct (numPending s - 1 <=? 0)%Z; reflexivity. Qed.
+Lemma taken_log_fail : forall g s p, taken (log_fail g s p) = taken s.
+Proof. intros g s p. unfold log_fail. cbn. destruct (negb (g_keep_going g) || p); reflexivity. Qed.
+Lemma taken_async_error : forall g s l, taken (async_error g s l) = taken s.
+Proof. intros g s l. unfold async_error. cbn. rewrite taken_log_fail. reflexivity. Qed.
+#[export] Hint Rewrite taken_task_done taken_log_fail taken_async_error : proj.
+Lemma building_task_done : forall s, building (task_done s) = building s.
+Proof. intros s. unfold task_done. cbn. destruct (numPending s - 1 <=? 0)%Z; reflexivity. Qed.
+Lemma building_log_fail : forall g s p, building (log_fail g s p) = building s.
+Proof. intros g s p. unfold log_fail. cbn. destruct (negb (g_keep_going g) || p); reflexivity. Qed.
+Lemma building_async_error : forall g s l, building (async_error g s l) = building s.
+Proof. intros g s l. unfold async_error. cbn. rewrite building_log_fail. reflexivity. Qed.
+#[export] Hint Rewrite building_task_done building_log_fail building_async_error : proj.
+Lemma finishing_task_done : forall s, finishing (task_done s) = finishing s.
+Proof. intros s. unfold task_done. cbn. destruct (numPending s - 1 <=? 0)%Z; reflexivity. Qed.
+Lemma finishing_log_fail : forall g s p, finishing (log_fail g s p) = finishing s.
+Proof. intros g s p. unfold log_fail. cbn. destruct (negb (g_keep_going g) || p); reflexivity. Qed.
+Lemma finishing_async_error : forall g s l, finishing (async_error g s l) = finishing s.
+Proof. intros g s l. unfold async_error. cbn. rewrite finishing_log_fail. reflexivity. Qed.
+#[export] Hint Rewrite finishing_task_done finishing_log_fail finishing_async_error : proj.
+Lemma completing_task_done : forall s, completing (task_done s) = completing s.
+Proof. intros s. unfold task_done. cbn. destruct (numPending s - 1 <=? 0)%Z; reflexivity. Qed.
+Lemma completing_log_fail : forall g s p, completing (log_fail g s p) = completing s.
+Proof. intros g s p. unfold log_fail. cbn. destruct (negb (g_keep_going g) || p); reflexivity. Qed.
+Lemma completing_async_error : forall g s l, completing (async_error g s l) = completing s.
+Proof. intros g s l. unfold async_error. cbn. rewrite completing_log_fail. reflexivity. Qed.
+#[export] Hint Rewrite completing_task_done completing_log_fail completing_async_error : proj.
+Lemma numActive_task_done : forall s, numActive (task_done s) = numActive s.
+Proof. intros s. unfold task_done. cbn. destruct (numPending s - 1 <=? 0)%Z; reflexivity. Qed.
+Lemma numActive_log_fail : forall g s p, numActive (log_fail g s p) = numActive s.
+Proof. intros g s p. unfold log_fail. cbn. destruct (negb (g_keep_going g) || p); reflexivity. Qed.
+Lemma numActive_async_error : forall g s l, numActive (async_error g s l) = numActive s.
+Proof. intros g s l. unfold async_error. cbn. rewrite numActive_log_fail. reflexivity. Qed.
+#[export] Hint Rewrite numActive_task_done numActive_log_fail numActive_async_error : proj.
+Lemma initdone_task_done : forall s, initdone (task_done s) = initdone s.
+Proof. intros s. unfold task_done. cbn. destruct (numPending s - 1 <=? 0)%Z; reflexivity. Qed.
+Lemma initdone_log_fail : forall g s p, initdone (log_fail g s p) = initdone s.
+Proof. intros g s p. unfold log_fail. cbn. destruct (negb (g_keep_going g) || p); reflexivity. Qed.
+Lemma initdone_async_error : forall g s l, initdone (async_error g s l) = initdone s.
+Proof. intros g s l. unfold async_error. cbn. rewrite initdone_log_fail. reflexivity. Qed.
+#[export] Hint Rewrite initdone_task_done initdone_log_fail initdone_async_error : proj.
+Lemma exited_task_done : forall s, exited (task_done s) = exited s.
+Proof. intros s. unfold task_done. cbn. destruct (numPending s - 1 <=? 0)%Z; reflexivity. Qed.
+Lemma exited_log_fail : forall g s p, exited (log_fail g s p) = exited s.
+Proof. intros g s p. unfold log_fail. cbn. destruct (negb (g_keep_going g) || p); reflexivity. Qed.
+Lemma exited_async_error : forall g s l, exited (async_error g s l) = exited s.
+Proof. intros g s l. unfold async_error. cbn. rewrite exited_log_fail. reflexivity. Qed.
+#[export] Hint Rewrite exited_task_done exited_log_fail exited_async_error : proj.
+Lemma cycreported_task_done : forall s, cycreported (task_done s) = cycreported s.
+Proof. intros s. unfold task_done. cbn. destruct (numPending s - 1 <=? 0)%Z; reflexivity. Qed.
+Lemma cycreported_log_fail : forall g s p, cycreported (log_fail g s p) = cycreported s.
+Proof. intros g s p. unfold log_fail. cbn. destruct (negb (g_keep_going g) || p); reflexivity. Qed.
+Lemma cycreported_async_error : forall g s l, cycreported (async_error g s l) = cycreported s.
+Proof. intros g s l. unfold async_error. cbn. rewrite cycreported_log_fail. reflexivity. Qed.
+#[export] Hint Rewrite cycreported_task_done cycreported_log_fail cycreported_async_error : proj.
+Lemma trace_task_done : forall s, trace (task_done s) = trace s.
+Proof. intros s. unfold task_done. cbn. destruct (numPending s - 1 <=? 0)%Z; reflexivity. Qed.
+Lemma trace_log_fail : forall g s p, trace (log_fail g s p) = trace s.
+Proof. intros g s p. unfold log_fail. cbn. destruct (negb (g_keep_going g) || p); reflexivity. Qed.
+#[export] Hint Rewrite trace_task_done trace_log_fail : proj.
+Lemma nfwd_task_done : forall s, nfwd (task_done s) = nfwd s.
+Proof. intros s. unfold task_done. cbn. destruct (numPending s - 1 <=? 0)%Z; reflexivity. Qed.
+Lemma nfwd_log_fail : forall g s p, nfwd (log_fail g s p) = nfwd s.
+Proof. intros g s p. unfold log_fail. cbn. destruct (negb (g_keep_going g) || p); reflexivity. Qed.
+Lemma nfwd_async_error : forall g s l, nfwd (async_error g s l) = nfwd s.
+Proof. intros g s l. unfold async_error. cbn. rewrite nfwd_log_fail. reflexivity. Qed.
+#[export] Hint Rewrite nfwd_task_done nfwd_log_fail nfwd_async_error : proj.
+Lemma numPending_log_fail : forall g s p, numPending (log_fail g s p) = numPending s.
+Proof. intros g s p. unfold log_fail. cbn. destruct (negb (g_keep_going g) || p); reflexivity. Qed.
+#[export] Hint Rewrite numPending_log_fail : proj.
+Lemma closed_log_fail : forall g s p, closed (log_fail g s p) = closed s.
+Proof. intros g s p. unfold log_fail. cbn. destruct (negb (g_keep_going g) || p); reflexivity. Qed.
+#[export] Hint Rewrite closed_log_fail : proj.
+Lemma failed_task_done : forall s, failed (task_done s) = failed s.
+Proof. intros s. unfold task_done. cbn. destruct (numPending s - 1 <=? 0)%Z; reflexivity. Qed.
+#[export] Hint Rewrite failed_task_done : proj.
+Lemma stopreq_task_done : forall s, stopreq (task_done s) = stopreq s.
+Proof. intros s. unfold task_done. cbn. destruct (numPending s - 1 <=? 0)%Z; reflexivity. Qed.
+#[export] Hint Rewrite stopreq_task_done : proj.
+Lemma trace_async_error : forall g s l, trace (async_error g s l) = OErr l :: trace s.
+Proof. intros g s l. unfold async_error. cbn. rewrite trace_log_fail. reflexivity. Qed.
+#[export] Hint Rewrite trace_async_error : proj.
+Lemma failed_log_fail : forall g s p, failed (log_fail g s p) = true.
+Proof. intros g s p. unfold log_fail. cbn. destruct (negb (g_keep_going g) || p); reflexivity. Qed.
+#[export] Hint Rewrite failed_log_fail : proj.
+Lemma failed_async_error : forall g s l, failed (async_error g s l) = true.
+Proof. intros g s l. unfold async_error. cbn. apply failed_log_fail. Qed.
+#[export] Hint Rewrite failed_async_error : proj.
+Lemma closed_async_error : forall g s l, closed (async_error g s l) = true.
+Proof. reflexivity. Qed.
+#[export] Hint Rewrite closed_async_error : proj.
+Lemma numPending_async_error : forall g s l, numPending (async_error g s l) = numPending s.
+Proof. intros g s l. unfold async_error. cbn. rewrite numPending_log_fail. reflexivity. Qed.
+#[export] Hint Rewrite numPending_async_error : proj.
+Lemma numPending_task_done : forall s, numPending (task_done s) = (numPending s - 1)%Z.
+Proof. intros s. unfold task_done. cbn. destruct (numPending s - 1 <=? 0)%Z; reflexivity. Qed.
+#[export] Hint Rewrite numPending_task_done : proj.
+Lemma closed_task_done : forall s, closed (task_done s) = (closed s || (numPending s - 1 <=? 0)%Z).
+Proof. intros s. unfold task_done. cbn. destruct (numPending s - 1 <=? 0)%Z; cbn; [rewrite orb_true_r | rewrite orb_false_r]; reflexivity. Qed.
+#[export] Hint Rewrite closed_task_done : proj.
+Lemma fin_qr : forall g s d, fin (queue_resolved g s d) = fin s.
+Proof. intros g s d. rewrite queue_resolved_eq. destruct (qr_ok s d); reflexivity. Qed.
+#[export] Hint Rewrite fin_qr : proj.
+Lemma ex_qr : forall g s d, ex (queue_resolved g s d) = ex s.
+Proof. intros g s d. rewrite queue_resolved_eq. destruct (qr_ok s d); reflexivity. Qed.
+#[export] Hint Rewrite ex_qr : proj.
+Lemma pk_qr : forall g s d, pk (queue_resolved g s d) = pk s.
+Proof. intros g s d. rewrite queue_resolved_eq. destruct (qr_ok s d); reflexivity. Qed.
+#[export] Hint Rewrite pk_qr : proj.
+Lemma initq_qr : forall g s d, initq (queue_resolved g s d) = initq s.
+Proof. intros g s d. rewrite queue_resolved_eq. destruct (qr_ok s d); reflexivity. Qed.
+#[export] Hint Rewrite initq_qr : proj.
+Lemma ptasks_qr : forall g s d, ptasks (queue_resolved g s d) = ptasks s.
+Proof. intros g s d. rewrite queue_resolved_eq. destruct (qr_ok s d); reflexivity. Qed.
+#[export] Hint Rewrite ptasks_qr : proj.
+Lemma parsers_qr : forall g s d, parsers (queue_resolved g s d) = parsers s.
+Proof. intros g s d. rewrite queue_resolved_eq. destruct (qr_ok s d); reflexivity. Qed.
+#[export] Hint Rewrite parsers_qr : proj.
+Lemma semi_qr : forall g s d, semi (queue_resolved g s d) = semi s.
+Proof. intros g s d. rewrite queue_resolved_eq. destruct (qr_ok s d); reflexivity. Qed.
+#[export] Hint Rewrite semi_qr : proj.
+Lemma sendq_qr : forall g s d, sendq (queue_resolved g s d) = sendq s.
+Proof. intros g s d. rewrite queue_resolved_eq. destruct (qr_ok s d); reflexivity. Qed.
+#[export] Hint Rewrite sendq_qr : proj.
+Lemma actq_qr : forall g s d, actq (queue_resolved g s d) = actq s.
+Proof. intros g s d. rewrite queue_resolved_eq. destruct (qr_ok s d); reflexivity. Qed.
+#[export] Hint Rewrite actq_qr : proj.
+Lemma taken_qr : forall g s d, taken (queue_resolved g s d) = taken s.
+Proof. intros g s d. rewrite queue_resolved_eq. destruct (qr_ok s d); reflexivity. Qed.
+#[export] Hint Rewrite taken_qr : proj.
+Lemma building_qr : forall g s d, building (queue_resolved g s d) = building s.
+Proof. intros g s d. rewrite queue_resolved_eq. destruct (qr_ok s d); reflexivity. Qed.
+#[export] Hint Rewrite building_qr : proj.
+Lemma finishing_qr : forall g s d, finishing (queue_resolved g s d) = finishing s.
+Proof. intros g s d. rewrite queue_resolved_eq. destruct (qr_ok s d); reflexivity. Qed.
+#[export] Hint Rewrite finishing_qr : proj.
+Lemma completing_qr : forall g s d, completing (queue_resolved g s d) = completing s.
+Proof. intros g s d. rewrite queue_resolved_eq. destruct (qr_ok s d); reflexivity. Qed.
+#[export] Hint Rewrite completing_qr : proj.
+Lemma initdone_qr : forall g s d, initdone (queue_resolved g s d) = initdone s.
+Proof. intros g s d. rewrite queue_resolved_eq. destruct (qr_ok s d); reflexivity. Qed.
+#[export] Hint Rewrite initdone_qr : proj.
+Lemma closed_qr : forall g s d, closed (queue_resolved g s d) = closed s.
+Proof. intros g s d. rewrite queue_resolved_eq. destruct (qr_ok s d); reflexivity. Qed.
+#[export] Hint Rewrite closed_qr : proj.
+Lemma exited_qr : forall g s d, exited (queue_resolved g s d) = exited s.
+Proof. intros g s d. rewrite queue_resolved_eq. destruct (qr_ok s d); reflexivity. Qed.
+#[export] Hint Rewrite exited_qr : proj.
+Lemma failed_qr : forall g s d, failed (queue_resolved g s d) = failed s.
+Proof. intros g s d. rewrite queue_resolved_eq. destruct (qr_ok s d); reflexivity. Qed.
+#[export] Hint Rewrite failed_qr : proj.
+Lemma stopreq_qr : forall g s d, stopreq (queue_resolved g s d) = stopreq s.
+Proof. intros g s d. rewrite queue_resolved_eq. destruct (qr_ok s d); reflexivity. Qed.
+#[export] Hint Rewrite stopreq_qr : proj.
+Lemma cycreported_qr : forall g s d, cycreported (queue_resolved g s d) = cycreported s.
+Proof. intros g s d. rewrite queue_resolved_eq. destruct (qr_ok s d); reflexivity. Qed.
+#[export] Hint Rewrite cycreported_qr : proj.
+Lemma trace_qr : forall g s d, trace (queue_resolved g s d) = trace s.
+Proof. intros g s d. rewrite queue_resolved_eq. destruct (qr_ok s d); reflexivity. Qed.
+#[export] Hint Rewrite trace_qr : proj.
+Lemma nfwd_qr : forall g s d, nfwd (queue_resolved g s d) = nfwd s.
+Proof. intros g s d. rewrite queue_resolved_eq. destruct (qr_ok s d); reflexivity. Qed.
+#[export] Hint Rewrite nfwd_qr : proj.
+Lemma ts_qr : forall g s d x, ts (queue_resolved g s d) x = if qr_ok s d && Nat.eqb x d then Active else ts s x.
+Proof.
+  intros g s d x. rewrite queue_resolved_eq. destruct (qr_ok s d); cbn; [|reflexivity].
+  unfold upd. destruct (Nat.eqb x d); reflexivity.
+Qed.
+Lemma asy_qr : forall g s d x, asy (queue_resolved g s d) x = if qr_ok s d && Nat.eqb x d then AQueue (g_deps g d) else asy s x.
+Proof.
+  intros g s d x. rewrite queue_resolved_eq. destruct (qr_ok s d); cbn; [|reflexivity].
+  unfold upd. destruct (Nat.eqb_spec x d); [subst|]; reflexivity.
+Qed.
+Lemma numPending_qr : forall g s d, numPending (queue_resolved g s d) = (numPending s + (if qr_ok s d then 1 else 0))%Z.
+Proof. intros g s d. rewrite queue_resolved_eq. destruct (qr_ok s d); cbn; lia. Qed.
